@@ -2,10 +2,11 @@
 import Driver.Common
 import Driver.WalDrv
 import Driver.SstDrv
+import Driver.EngineDrv
 open Driver
 
 def components : List (String × Component) :=
-  [("wal", WalDrv.component), ("sst", SstDrv.component)]
+  [("wal", WalDrv.component), ("sst", SstDrv.component), ("engine", EngineDrv.component)]
 
 def main (args : List String) : IO UInt32 := do
   match args with
